@@ -843,9 +843,23 @@ fn corpus() -> Vec<&'static str> {
         // row 65535 in xls references (u16 `row + 1` overflowed before the D07 rewrite)
         "enc S=5331 N= X=0 | R 0 65535 0 0 0",
         "enc S=5331 N= X=0 | R3 0 0 65535 0 0 0",
-        // truncated tokens: unchecked slices (known finding, C06)
+        // truncated tokens: unchecked rgce slices panicked (fixed b768c99: XlsError::Len / short_record)
         "raw - xls 010024 S=5331 N= X=0",
         "raw - xlsb 2400 S=5331 N= X=0",
+        "raw - xls 03002401ff S=5331 N= X=0",
+        "raw - xlsb 170500410042 S=5331 N= X=0",
+        "raw - xlsb 2905001e01 S=5331 N= X=0",
+        // PtgFuncVar with iftab >= 485 indexed FTAB unchecked (cparams = 0 in xls, always in xlsb) (fixed b768c99)
+        "raw - xls 04004200ff01 S=5331 N= X=0",
+        "raw - xlsb 4200ff01 S=5331 N= X=0",
+        "raw - xlsb 1e01002201ff7f S=5331 N= X=0",
+        // PtgName with name index 0: `as usize - 1` underflow (fixed b768c99: #REF! / empty)
+        "raw - xls 05002300000000 S=5331 N= X=0",
+        "raw - xlsb 2300000000 S=5331 N=4d794e616d65 X=0",
+        // xlsb 3-D reference with an extern-sheet index outside the table: `&sheets[ixti]` (fixed b768c99: #REF)
+        "raw - xlsb 3a05000000000000c0 S=5331 N= X=",
+        "raw - xlsb 3b0500000000000100000000c001c0 S=5331 N= X=0",
+        "raw - xlsb 3c05000000000000c0 S=5331 N= X=0",
         // new-C14-a FTAB_ARGC listed MMULT (165) with 1 argument: =MMULT(A1:B2,C1:D2) written as PtgFunc could not be decoded
         "enc S=5331 N= X=0 | FN 1 165 2 A 0 0 0 0 0 1 1 0 0 A 0 0 2 0 0 1 3 0 0",
         // new-C14-b xlsb PtgStr sniffed a byte-order mark in a string literal (U+FEFF dropped, U+FFFE / U+BBEF U+xxBF re-decoded)
